@@ -177,7 +177,7 @@ theorem listUsersF_rel {N K : Type} [DecidableEq N] [DecidableEq K] (sys : LSys 
   ⟨_, _, expandF_expand sys limit sc fuel 0 [] (.node root), isMapOf_mapOf _ _, rfl⟩
 
 /-- **lu_nodup**, every schedule: no user is returned twice -/
-theorem lu_nodup {N K : Type} [DecidableEq K] (sys : LSys N K) (limit : Nat) (root : N) (a : Answer K)
+theorem lu_nodup {N K : Type} [DecidableEq N] [DecidableEq K] (sys : LSys N K) (limit : Nat) (root : N) (a : Answer K)
     (h : ListUsersRel sys limit root a) : a.users.Nodup := by
   obtain ⟨r, m, _, hm, rfl⟩ := h
   exact finalOf_nodup hm
